@@ -5,6 +5,63 @@ CAFS_TRUSTED = ["BLAKE2b: the Lean implementation (Model/Blake2b.lean) equals mi
                 "harness/internal/memstore as the blob store contract"]
 
 PROPS = {
+    "C16": {
+        "sub": "c16",
+        "trivial": r"^keys$|^walk p= d= n=[123]$",
+        "level_text": "Proof: C16_store_refines_map (put/get/has/delete of the store contract = the map specification, all histories), "
+                      "C16_localfs_refines / C16_localfs_refines_map (the local file system model, with its directories, MkdirAll, O_EXCL and Remove, "
+                      "is indistinguishable from the contract on key universes where no key is a proper path-prefix of another), "
+                      "C16_excl_unique / C16_excl_outcome_valid (any schedule of atomic create-if-absent writers: exactly one wins and its bytes are stored), "
+                      "C16_listing_mem / C16_listing_sorted / C16_rollup_cut / C16_walk_order_irrelevant (listing = exactly the keys or immediate "
+                      "sub-prefixes, each once, lexicographic, whatever the walk order), C16_paging_complete / C16_keysPrefix_paging (every page "
+                      "size >= 1: following next from \"\" yields exactly the listing). The models are tied to localfs (afero memory FS and a real "
+                      "directory) and to the harness reference store by replaying the same random histories on all of them and on the Lean models; "
+                      "races of 2..16 real goroutines are judged by the theorem's predicate.",
+        "level_note": "Partial: the operating system / afero (O_EXCL atomicity, O_TRUNC, directory semantics) is modelled, not verified; a "
+                      "non-exclusive Put is not atomic on a real file system (concurrent readers may see a truncated file) and is outside the theorems; "
+                      "keys are clean relative paths. Trusted: Lean kernel, harness, driver, facts translator.",
+        "trusted": ["the operating system's open(O_CREAT|O_EXCL) is atomic; afero.OsFs/BasePathFs pass calls through",
+                    "Go's sort.Strings / strings.HasPrefix / strings.Index on valid UTF-8 agree with Lean's code-point order and list-of-Char search"],
+        "assumptions": ["keys are clean relative paths (non-empty components, none '.' or '..', no leading or trailing '/')",
+                        "no key ever used is a proper path-prefix of another key ever used (a file and a directory cannot share a path; "
+                        "directories outlive their files: C16_neg_leftover_directory)",
+                        "page size >= 1; no fault injection (I/O errors) and no concurrent non-exclusive writers"],
+        "rule": "one evaluation = one store operation (put/get/has/del/list/walk/keys) or one race outcome whose implementation result was "
+                "compared with the Lean model's; every history runs on localfs-memory, localfs-disk, memstore and memstore-delok; "
+                "distinct = distinct operation text; the closing keys / whole-store walk lines of a history are trivial",
+        "timeout_quick": 600,
+        "timeout_thorough": 3000,
+    },
+    "C20": {
+        "sub": "c20",
+        "trivial": r"^(build k=(PurgeLock|ReverseIndex|ReverseIndexPrefix|GetArchivePathPrefixToRepos|GetArchivePathPrefixToContexts) a=$|collide |cls )",
+        "level_text": "Proof for paths, reserved-path detection and name validation: C20_parse_render (GetArchivePathComponents after every "
+                      "GetArchivePathTo*/GetPathToContext builder returns exactly the components, for all slash-free names, all ids accepted by "
+                      "ksuid.Parse, every index), C20_fileIndex, C20_render_disjoint (equal paths => same kind and same components), "
+                      "C20_other_builders_disjoint, C20_consumable_roundtrip_desc/_list (+ _builders_total, _disjoint), C20_isGenerated_exact "
+                      "(genFileRe accepts exactly .datamon/.conflicts/.checkpoints at the root and below), C20_validateRepo_exact / "
+                      "C20_validateLabel_exact / C20_ascii_alphabets, C20_validated_label_roundtrip, C20_conflict_paths_reserved, "
+                      "C20_reverse_index_roundtrip. The theorems are proved for any template with the expected segment structure and "
+                      "discharged by `decide` on the path templates, constants and regexp literals regenerated from pkg/model on every run "
+                      "(C20_facts_*). PARTIAL for 'every descriptor reads back equal': decided by the differential run only (real yaml.v2 "
+                      "round trip of randomly populated repo, bundle, file-list, label, diamond, split, context and WAL descriptors).",
+        "level_note": "Trusted: Lean kernel, the facts translator (extract/c20.go: straight-line Sprint/Sprintf/+/path.Join builders only, "
+                      "anything else aborts), the harness and driver. Modelled by hand and tied differentially: GetArchivePathComponents, "
+                      "GetConsumableStorePathMetadata, IsGeneratedFile (direct predicate for the regexp, literal compared), path.Clean, "
+                      "ksuid.Parse (segmentio/ksuid v1.0.4: 27 bytes, value < 2^160, digits not validated). Letter/decimal-digit status of "
+                      "non-ASCII runes is a parameter of the validation model (supplied per name from Go's unicode tables); the Hyphen and Pc "
+                      "tables are concrete and compared with Go's on every rune (thorough). The YAML codec is an external library: that "
+                      "clause has no Lean model (no non-circular statement is possible) and is reported as differential evidence only.",
+        "trusted": ["gopkg.in/yaml.v2 (descriptor clause is differential only)", "Go unicode tables for non-ASCII letters/digits (oracle per name)",
+                    "regexp literals are compared with the ones the direct predicates were written for, not interpreted"],
+        "assumptions": ["names and paths are valid UTF-8", "names contain no '/' (guaranteed for validated repo and label names: C20_validated_label_roundtrip); "
+                        "diamond and generation ids are accepted by ksuid.Parse; split ids are non-empty; context names are plain path components",
+                        "consumable bundle ids contain no newline; descriptor ids do not contain '-bundle-files-' (KSUIDs contain no '-')",
+                        "descriptor timestamps lie in years 1..9999 in their own zone (RFC 3339)"],
+        "rule": "one evaluation = one builder call, parser call, predicate call, validation call or descriptor round trip on the real code, "
+                "compared with the Lean model (judge lines rt/crt/chunk: real parser on the real builder's path vs. the components the "
+                "theorem demands); distinct = distinct operation text; constant builders and table/summary lines are trivial",
+    },
     "C19": {
         "sub": "c19",
         "trivial": r"^order$",
